@@ -921,7 +921,7 @@ func c13R4(c *Ctx) {
 		RD = "C13.R4.upload-digest-parameter"
 	)
 	c.Expect(RU, 16)
-	c.Expect(RQ, 4)
+	c.Expect(RQ, 2) // the upload PUT and at least one page query (several page functions may share one helper)
 	c.Expect(RD, 1)
 	methods := map[string]bool{"GET": true, "HEAD": true, "PUT": true, "POST": true, "DELETE": true}
 	for _, f := range c.P.FuncsOfPkg(c13PkgRemote) {
